@@ -9,7 +9,9 @@ P = {
  "C01": ("theorem honest_login_agrees (generic in the suite; restated at each of the 20 concrete suites, where HashLaws, CodecLaws, SizeLaws and the "
          "encoding half of GroupLaws are proved and the only hypothesis left is CurveLaws - six facts of elliptic-curve arithmetic): "
          "after an honest registration the client accepts, the server accepts its finalization, keys agree, export key and server key as at "
-         "registration; differential run of honest flows on boundary-length inputs, all suites, production build",
+         "registration - also with every party on a tape of its own, and over histories: in any world the adversary can reach an honestly routed login "
+         "completes on both sides; differential run of honest flows on boundary-length, coinciding and maximal inputs, constant-byte tapes, serde-persisted "
+         "states, non-identity default KSF suites, all suites, both builds",
          "CurveLaws (closure, commutativity and invertibility of the scalar action, decompression inverts compression, derived public keys valid, DH symmetric) "
          "is a hypothesis for the concrete curves (all laws proved for the toy suite); non-degeneracy hypotheses are explicit in the statement"),
  "C02": ("theorem wrong_password_never_accepted: after an honest registration with pw, a login with any pw' <> pw against the honest server is "
